@@ -225,6 +225,9 @@ func InAlphabet(s, alphabet string) bool {
 	return true
 }
 
+// NotBefore(a, b, ia, ib, d): event b[ib] happens at least d (real time) after event a[ia] (engine, timers=real).
+func NotBefore(a, b string, ia, ib int, d time.Duration) bool { return true }
+
 // Time builds a time.Time from a nanosecond instant (symbolically: the engine's time model).
 func Time(ns int64) time.Time { return time.Unix(0, ns) }
 
